@@ -55,6 +55,3 @@ func init() {
 	Checks["C04"] = func(c *Ctx) { c.lexerExploration() }
 }
 
-func init() {
-	Checks["C01"] = func(c *Ctx) { c.lexerExploration() }
-}
